@@ -1140,6 +1140,12 @@ func (h *handler) handle(ctx context.Context, nextCid cid.Cid, sel ipld.Node, sy
 		if err != nil {
 			return 0, err
 		}
+		// Segmented sync is enabled but this sync fits into a single segment:
+		// a failure signalled by the block hook counts as it does in a
+		// segmented sync.
+		if segdl > 0 && bh != nil && segSync.err != nil {
+			return 0, segSync.err
+		}
 		log.Debugw("Non-segmented sync completed", "syncedCount", syncedCount)
 		return syncedCount, nil
 	}
